@@ -218,6 +218,12 @@ func historyCase(c *core.Ctx, which string, i, nsteps int) {
 		pj.PauseHook = nil
 	}
 	e := pj.NewEngine(s, p, g)
+	if i%4 == 2 {
+		// a quarter of the histories keep one Project alive and Reload() it before each in-process build, the way
+		// `dawn watch` does; fresh-process builds are still interleaved
+		e.Live = &pj.Live{}
+		defer func() { c.Count("builds_by_reload_of_a_long_lived_project", int64(e.Live.Reloads)) }()
+	}
 	e.ChildBuild = childBuilder(c, 0)
 	r := g.R
 	report := func(st *pj.Step, f pj.Finding) {
